@@ -53,7 +53,7 @@ def setup(cfg):
     r.N = r.G.order()
     r.nodes = list(r.G.nodes())
     lab = (lambda i: labels[i]) if labels else (lambda i: i)
-    r.I0 = [lab(i) for i in cfg.get('I0', [])]
+    r.I0 = [lab(i) for i in (cfg.get('I0') or [])]
     r.R0 = [lab(i) for i in cfg.get('R0', [])]
     zero = cfg.get('zero')
     r.tau = 0.0 if zero in ('tau', 'both') else eng.real('tau', lo=0, lo_strict=True)
@@ -64,6 +64,8 @@ def setup(cfg):
         r.tmin = cfg['tmin']
     if cfg.get('tmax', 'inf') == 'inf':
         r.tmax = INF
+    elif str(cfg['tmax']).startswith('steps:'):
+        r.tmax = r.tmin + int(cfg['tmax'].split(':')[1])
     else:
         r.tmax = eng.real('tmax')
         eng.assume(symx.lift(r.tmax) > symx.lift(r.tmin) if eng.mode == 'sym' else r.tmax > r.tmin)
@@ -87,6 +89,7 @@ def setup(cfg):
             r.G.nodes[u]['rw'] = x
             r.nw[u] = x
     r.stub = RandomStub(ties=cfg.get('ties', False), max_expo=cfg.get('max_expo'),
+                        max_draws=cfg.get('max_draws', 16 * max(r.N, 2) if 'SIR' in cfg.get('entry', '') else 400),
                         max_uniform_per_step=cfg.get('max_unif', 2 + cfg.get('R', 1)))
     install_sim(r.stub, NPProxy())
     # fast_SIR's constant-rate sampler: the real _truncated_exponential_ (int(t/T) -> mixed integer/real
@@ -96,7 +99,7 @@ def setup(cfg):
         _ORIG_TRUNC = sim._truncated_exponential_
     if cfg.get('trunc_stub', True):
         def trunc(rate, T):
-            x = symx.ENG.var('x', lo=0)
+            x = symx.ENG.var('x', lo=0, lo_strict=not cfg.get('zero_delay'))
             if symx.ENG.mode == 'sym':
                 symx.ENG.assume(symx.lift(x) < symx.lift(T))
             symx.ENG.log.append(('truncexp', rate, T, x))
@@ -105,10 +108,11 @@ def setup(cfg):
     else:
         sim._truncated_exponential_ = _ORIG_TRUNC
     from . import gillaw
-    if cfg.get('wstub'):
+    gillaw.uninstall_weighted_choice_stub(sim)
+    if cfg.get('wstub') == 'abstract':
+        gillaw.install_abstract_weighted_set(sim)
+    elif cfg.get('wstub'):
         gillaw.install_weighted_choice_stub(sim)
-    else:
-        gillaw.uninstall_weighted_choice_stub(sim)
     r.EoN = EoN
     r.sim = sim
     return r
@@ -140,6 +144,28 @@ def ic_kwargs(r, sir=True):
 
 def call_entry(h, r, kind='no-exception'):
     """dispatch on cfg['entry']; returns the raw return value (or None after recording a failure)"""
+    ret = _call_entry(h, r, kind)
+    return check_shape(h, r, ret)
+
+
+def check_shape(h, r, ret):
+    if ret is None:
+        return None
+    full = r.cfg.get('full', False)
+    sir = 'SIR' in r.cfg['entry']
+    if full:
+        if not hasattr(ret, 'node_history') or not hasattr(ret, 'summary'):
+            h.fail('full-data-object-returned', {'got': type(ret).__name__})
+            return None
+    else:
+        n = 4 if sir else 3
+        if not isinstance(ret, (tuple, list)) or len(ret) != n:
+            h.fail('arrays-returned', {'got': type(ret).__name__, 'len': len(ret) if hasattr(ret, '__len__') else None})
+            return None
+    return ret
+
+
+def _call_entry(h, r, kind='no-exception'):
     cfg = r.cfg
     E = r.EoN
     entry = cfg['entry']
@@ -157,49 +183,99 @@ def call_entry(h, r, kind='no-exception'):
         return h.call_must_succeed(kind, f, r.G, r.tau, r.gamma, **kw)
     if entry in ('fast_nonMarkov_SIR', 'fast_nonMarkov_SIS'):
         kw.update(ic_kwargs(r, sir))
-        make_user_fxns(r)
+        make_user_fxns(r, replay_from=getattr(r, 'replay_from', None))
         if cfg.get('joint'):
             kw['trans_and_rec_time_fxn'] = r.joint_fxn
         else:
             kw['trans_time_fxn'] = r.trans_time_fxn
             kw['rec_time_fxn'] = r.rec_time_fxn
         return h.call_must_succeed(kind, f, r.G, **kw)
+    if entry == 'discrete_SIR':
+        kw.update(ic_kwargs(r, True))
+        r.contacts = {}
+
+        def rule(u, v, *args):
+            # deterministic user rule: one engine-chosen boolean per ordered pair (the digraph of successful contacts)
+            if cfg.get('no_transmission'):
+                return False
+            if (u, v) not in r.contacts:
+                r.contacts[(u, v)] = bool(symx.ENG.choose(2, 'contact'))
+                symx.ENG.log.append(('contact', u, v, r.contacts[(u, v)]))
+            return r.contacts[(u, v)]
+        r.rule = rule
+        if cfg.get('test_recovery'):
+            r.recov_calls = []
+
+            def test_recovery(u):
+                k = len([x for x in r.recov_calls if x[0] == u])
+                ans = True if k >= cfg.get('max_keep', 1) else bool(symx.ENG.choose(2, 'recover?'))
+                r.recov_calls.append((u, ans))
+                return ans
+            kw['test_recovery'] = test_recovery
+        return h.call_must_succeed(kind, f, r.G, rule, (), **kw)
+    if entry in ('basic_discrete_SIR', 'percolation_based_discrete_SIR', 'basic_discrete_SIS'):
+        kw.update(ic_kwargs(r, sir))
+        r.p = symx.ENG.real('p', lo=0, hi=1) if cfg.get('p', 'sym') == 'sym' else cfg['p']
+        return h.call_must_succeed(kind, f, r.G, r.p, **kw)
     raise ValueError(entry)
 
 
-def make_user_fxns(r):
-    """user-supplied delay / duration rules returning fresh symbols (or 0 / inf in boundary configs)"""
+def make_user_fxns(r, replay_from=None):
+    """user-supplied delay / duration rules returning fresh symbols (or 0 / inf in boundary configs).
+    With replay_from (an earlier Run) the same values are handed out again, per key in call order."""
     eng = symx.ENG
     cfg = r.cfg
     r.delays = {}     # (u,v) -> list of delay values handed out (in call order)
     r.durations = {}  # u -> list
+    if replay_from is not None:
+        src_dur = {k: list(v) for k, v in replay_from.durations.items()}
+        src_del = {k: list(v) for k, v in replay_from.delays.items()}
+
+        def rp_rec(u):
+            v = src_dur[u].pop(0)
+            r.durations.setdefault(u, []).append(v)
+            return v
+
+        def rp_trans(u, v, *a):
+            d = src_del[(u, v)].pop(0)
+            r.delays.setdefault((u, v), []).append(d)
+            return list(d) if isinstance(d, list) else d
+        r.rec_time_fxn = rp_rec
+        r.trans_time_fxn = rp_trans
+        r.joint_fxn = None
+        return
     special = cfg.get('special', {})   # e.g. {"dur:1": "inf", "del:0-1": 0}
     sis = 'SIS' in cfg['entry']
 
     def rec_time_fxn(u):
+        r.n_infections = getattr(r, 'n_infections', 0) + 1
+        if cfg.get('max_infections') is not None and r.n_infections > cfg['max_infections']:
+            raise symx.BoundReached('infection episodes > %d' % cfg['max_infections'])
         key = 'dur:%s' % (u,)
         if key in special:
             v = INF if special[key] == 'inf' else float(special[key])
         else:
-            v = eng.var('D_%s' % (u,), lo=0, lo_strict=sis)
+            v = eng.var('D_%s' % (u,), lo=0, lo_strict=(sis or not cfg.get('zero_duration')))
         r.durations.setdefault(u, []).append(v)
         symx.ENG.log.append(('user_duration', u, v))
         return v
 
     def trans_time_fxn(u, v):
         key = 'del:%s-%s' % (u, v)
-        if key in special:
+        if cfg.get('no_transmission'):
+            d = INF
+        elif key in special:
             d = INF if special[key] == 'inf' else float(special[key])
         else:
-            d = eng.var('d_%s_%s' % (u, v), lo=0)
+            d = eng.var('d_%s_%s' % (u, v), lo=0, lo_strict=not cfg.get('zero_delay'))
         r.delays.setdefault((u, v), []).append(d)
         symx.ENG.log.append(('user_delay', u, v, d))
         return d
 
     def trans_times_SIS(u, v, duration):
         # documented: list of delays, all before recovery; ascending (the code takes [0] as the first)
-        k = cfg.get('delays_per_pair', 1)
-        n = eng.choose(k + 1, 'ndelays') if cfg.get('vary_ndelays', True) else k
+        k = 0 if cfg.get('no_transmission') else cfg.get('delays_per_pair', 1)
+        n = 0 if k == 0 else eng.choose(k + 1, 'ndelays') if cfg.get('vary_ndelays', True) else k
         out = []
         prev = 0
         for i in range(n):
